@@ -18,6 +18,7 @@ type c06X struct {
 	LastOnEmpty bool
 	SizeArg     string // "" = no SIZE parameter
 	SizeKind    int    // 0 none, 1 N-1, 2 N, 3 N+1, 4 huge (32 bit), 5 huge (11 digits), 6 malformed
+	SizeZeros   bool   // the SIZE value is written with leading zeros
 	MailOK      bool   // reference: MAIL must be accepted
 	Expect      []string
 	Pre         int
@@ -103,6 +104,15 @@ func genC06(t *Tape, tier string) *Scenario {
 	case 6:
 		x.SizeArg = []string{"abc", "-1", "12x", ""}[t.Intn(4)]
 		x.MailOK = false
+	}
+	if x.SizeKind >= 1 && x.SizeKind <= 3 && t.Chance(1, 3) {
+		// size-value is 1*20DIGIT (RFC 1870): leading zeros are legal and change nothing
+		x.SizeZeros = true
+		if t.Bool() {
+			x.SizeArg = strings.Repeat("0", 1+t.Intn(3)) + x.SizeArg
+		} else {
+			x.SizeArg = strings.Repeat("0", 20-len(x.SizeArg)) + x.SizeArg
+		}
 	}
 	dp := DataPlan{ReadSizes: drawReadSizes(t), ParkReads: drawParks(t)}
 	if t.Chance(1, 6) {
@@ -368,6 +378,9 @@ func classifyC06(sc *Scenario, h *History, st *Stats) string {
 	} else {
 		st.Probes["size_far_above"]++
 	}
+	if x.SizeZeros {
+		st.Probes["size_parameter_with_leading_zeros"]++
+	}
 	if x.ViaBdat {
 		st.Probes["via_bdat"]++
 	} else {
@@ -396,7 +409,7 @@ func classifyC06(sc *Scenario, h *History, st *Stats) string {
 func init() {
 	register(&Property{
 		ID: "C06", Level: "exploration",
-		Rule:     "limits N in 8..24 (systematic) and {32,48,64,5000}; message sizes N-2..N+2 and about 10N (no leading dots, so wire and backend size agree); via DATA and via every BDAT chunk count 1..4 with drawn cut points (LAST sometimes on an empty chunk); MAIL with SIZE= N-1, N, N+1, 2^32-1, an 11-digit value and malformed values; backend read sizes, segmentation, SMTP/LMTP drawn. After the message: a DATA probe (must be refused: envelope gone), a MAIL marker, QUIT. Every case is non-trivial (it sits on or next to the boundary); distinct by (N, size, form, chunking, SIZE kind, mode, read sizes).",
+		Rule:     "limits N in 8..24 (systematic) and {32,48,64,5000}; message sizes N-2..N+2 and about 10N (no leading dots, so wire and backend size agree); via DATA and via every BDAT chunk count 1..4 with drawn cut points (LAST sometimes on an empty chunk); MAIL with SIZE= N-1, N, N+1 (a third of them with leading zeros, up to the 20 digits RFC 1870 allows), 2^32-1, an 11-digit value and malformed values; backend read sizes, segmentation, SMTP/LMTP drawn. After the message: a DATA probe (must be refused: envelope gone), a MAIL marker, QUIT. Every case is non-trivial (it sits on or next to the boundary); distinct by (N, size, form, chunking, SIZE kind, mode, read sizes).",
 		Gen:      genC06,
 		Check:    checkC06,
 		Classify: classifyC06,
@@ -420,7 +433,7 @@ func init() {
 		Real:        []string{"smtp.Server.Serve/handleConn", "smtp.Conn handleMail SIZE check, handleData, handleBdat", "dataReader budget", "io.Pipe", "net/textproto", "bufio"},
 		Stub:        []string{"net.Listener (SimListener)", "net.Conn (SimConn)", "Backend/Session (SimBackend; returns the reader's error like io.ReadAll-based backends)", "clock (synctest)", "SMTP client (raw driver)"},
 		Assumptions: []string{"message size is judged on messages without dot-stuffing, where wire size and backend size coincide", "the backend propagates a reader error as its verdict"},
-		Required:    []string{"size_N+0", "size_N+1", "size_N-1", "size_far_above", "via_bdat", "via_data", "size_parameter", "earlier_transaction_BDAT_completed", "earlier_transaction_chunk_then_RSET", "earlier_transaction_BDAT_refused_for_size", "earlier_transaction_DATA_completed", "backend_reads_on_after_timeout_inside_message", "backend_copies_with_io.Copy"},
+		Required:    []string{"size_N+0", "size_N+1", "size_N-1", "size_far_above", "via_bdat", "via_data", "size_parameter", "earlier_transaction_BDAT_completed", "earlier_transaction_chunk_then_RSET", "earlier_transaction_BDAT_refused_for_size", "earlier_transaction_DATA_completed", "backend_reads_on_after_timeout_inside_message", "backend_copies_with_io.Copy", "size_parameter_with_leading_zeros"},
 		QuickRuns:   200000, ThoroughRuns: 4000000,
 	})
 }
